@@ -8,7 +8,9 @@ THEOREMS = {
     'C05': ['Cctz.C05.add_exact', 'Cctz.C05.sub_exact', 'Cctz.C05.difference_exact', 'Cctz.C05.inverse', 'Cctz.C05.lt_iff',
             'Cctz.C05.lt_iff_difference', 'Cctz.C05.add_no_overflow', 'Cctz.C05.sub_no_overflow', 'Cctz.C05.difference_no_overflow'],
     'C17': ['Cctz.C17.getWeekday_spec', 'Cctz.C17.getYearday_spec', 'Cctz.C17.nextWeekday_spec',
-            'Cctz.C17.prevWeekday_spec', 'Cctz.C17.weekday_spec_sanity'],
+            'Cctz.C17.prevWeekday_spec', 'Cctz.C17.weekday_spec_sanity',
+            'Cctz.C17Idiom.weekday_of_result', 'Cctz.C17Idiom.onOrAfter', 'Cctz.C17Idiom.onOrBefore',
+            'Cctz.C17Idiom.idiom_fixpoint', 'Cctz.C17Idiom.week_step'],
 }
 
 PANEL = [(0, 0, 0, 0, 0), (0, 0, 24, 0, 0), (0, 0, -1, 0, 0), (0, 0, 0, 60, 0), (0, 0, 0, -1, 0), (0, 0, 0, 0, 60),
@@ -248,7 +250,7 @@ def run_C05(chk):
 # ------------------------------------------------------------------------------------ C17
 
 def run_C17(chk):
-    chk.prepare_model('Cctz.Properties.C17', THEOREMS['C17'])
+    chk.prepare_model(['Cctz.Properties.C17', 'Cctz.Properties.C17Idiom'], THEOREMS['C17'])
     exe = chk.harness('san')
     scale = chk.tier if not (chk.broken or chk.degraded) else 'thorough'
     if exe is None or not getattr(chk, 'driver_ok', False):
@@ -269,6 +271,10 @@ def run_C17(chk):
             for w in ws:
                 lines.append('nwd %d %d %d %d' % (y, m, d, w)); meta.append(('nwd', (y, m, d, w)))
                 lines.append('pwd %d %d %d %d' % (y, m, d, w)); meta.append(('pwd', (y, m, d, w)))
+            # the documented idioms next_weekday(d - 1, wd) / prev_weekday(d + 1, wd): first/last wd on or after/before d
+            for w in (ws if scale != 'quick' or off else [(i + 3) % 7, (i * 5) % 7]):
+                lines.append('nwi %d %d %d %d' % (y, m, d, w)); meta.append(('nwi', (y, m, d, w)))
+                lines.append('pwi %d %d %d %d' % (y, m, d, w)); meta.append(('pwi', (y, m, d, w)))
     # extremes and random years, all 7 weekdays
     for _ in range(20000 if scale == 'quick' else 400000):
         y = C.pick_year(rng)
@@ -278,6 +284,9 @@ def run_C17(chk):
         w = rng.randrange(7)
         lines.append('nwd %d %d %d %d' % (y, m, d, w)); meta.append(('nwd', (y, m, d, w)))
         lines.append('pwd %d %d %d %d' % (y, m, d, w)); meta.append(('pwd', (y, m, d, w)))
+        w = rng.randrange(7)
+        lines.append('nwi %d %d %d %d' % (y, m, d, w)); meta.append(('nwi', (y, m, d, w)))
+        lines.append('pwi %d %d %d %d' % (y, m, d, w)); meta.append(('pwi', (y, m, d, w)))
     mo, io, mism = correspond(chk, lines, exe, 'weekday')
     nontriv = 0
     for i, (kind, a) in enumerate(meta):
@@ -288,6 +297,15 @@ def run_C17(chk):
             yd = C.yearday(*a)
             want = str(yd)
             assert 1 <= yd <= 366
+        elif kind in ('nwi', 'pwi'):
+            y, m, d, w = a
+            n0 = C.day_num(y, m, d)
+            k = next(j for j in range(0, 7) if (n0 + (j if kind == 'nwi' else -j) + 3) % 7 == w)
+            r = C.civil_of_day(n0 + (k if kind == 'nwi' else -k))
+            mid = C.civil_of_day(n0 + (-1 if kind == 'nwi' else 1))
+            if not C.in64(r[0]) or not C.in64(mid[0]):
+                chk.count('weekday:unrepresentable'); continue
+            want = C.fmt(r + (0, 0, 0)) + ' %d' % w
         else:
             y, m, d, w = a
             n0 = C.day_num(y, m, d)
@@ -298,7 +316,7 @@ def run_C17(chk):
             want = C.fmt(r + (0, 0, 0))
         chk.count(kind)
         if out != want:
-            chk.report('%s(%s) = %s, the calendar says %s' % ({'wd': 'get_weekday', 'yd': 'get_yearday', 'nwd': 'next_weekday', 'pwd': 'prev_weekday'}[kind],
+            chk.report('%s(%s) = %s, the calendar says %s' % ({'wd': 'get_weekday', 'yd': 'get_yearday', 'nwd': 'next_weekday', 'pwd': 'prev_weekday', 'nwi': 'next_weekday(d - 1, wd) + get_weekday', 'pwi': 'prev_weekday(d + 1, wd) + get_weekday'}[kind],
                        ' '.join(map(str, a)), out, want), {'op': lines[i], 'implementation': out, 'model': mo[i], 'specification': want},
                        sig='%s %s' % (kind, site_sig(out)))
         else:
@@ -309,7 +327,8 @@ def run_C17(chk):
     chk.cov['exhaustive_cycle'] = True
     chk.cov['rule'] = ('every day of the 146097-day Gregorian cycle (2000-01-01 .. 2399-12-31)%s: get_weekday, get_yearday, next_weekday and prev_weekday '
                        'for %s, plus random dates over the int64 year range; compared model vs implementation and against the Python calendar oracle '
-                       '(weekday = (daynumber+3) mod 7 with Monday=0; nearest strictly later/earlier day with the requested weekday, 1..7 days away); '
+                       '(weekday = (daynumber+3) mod 7 with Monday=0; nearest strictly later/earlier day with the requested weekday, 1..7 days away; '
+                       'the documented idioms next_weekday(d - 1, wd) / prev_weekday(d + 1, wd) = first/last wd on or after/before d, 0..6 days away, with get_weekday of the result); '
                        'every op is a distinct date/weekday pair') % (
                         '' if scale == 'quick' else ' replicated at 9 year offsets = 0 mod 400 incl. negative years and the int64 extremes',
                         'two weekdays per day (quick)' if scale == 'quick' else 'all seven weekdays')
